@@ -204,6 +204,24 @@ class BusWorld:
         return peer
 
 
+    def churn(self, n):
+        """n short-lived connections: each authenticates, says Hello and goes
+        away again (what a bus sees from command-line tools all day long)"""
+        hello = R.encode_message(
+            R.METHOD_CALL, 1,
+            {'path': '/org/freedesktop/DBus', 'member': 'Hello',
+             'interface': 'org.freedesktop.DBus',
+             'destination': 'org.freedesktop.DBus'})
+        for _ in range(n):
+            p = self.factory.buildProtocol(None)
+            t = FakeTransport()
+            p.makeConnection(t)
+            p.dataReceived(b'\0AUTH ANONYMOUS\r\nBEGIN\r\n')
+            p.dataReceived(hello)
+            t.lost = True
+            p.connectionLost(lost_reason())
+
+
 class Peer:
     def __init__(self, world, proto, transport):
         self.world = world
